@@ -43,6 +43,58 @@ def srv_instances(ctx):
     return out
 
 
+INV_C = "INVARIANTS TypeOK LedgerConcurrent LedgerGlobal LedgerPeer LedgerDialData Books"
+
+
+def int_instances(ctx):
+    """(slots, RPM, PerPeerRPM, DDRPM, Cap) of the interleaving model.  Virtual time of a walk between two Minute
+    steps: one dial wait (3 s) per served dial-data request; parked requests have a 15 s stream deadline."""
+    out = [(("a1", "a2", "b1"), 3, 2, 1, 1), (("a1", "a2", "a3", "b1"), 4, 3, 1, 2), (("a1", "a2", "b1", "b2"), 4, 2, 2, 1)]
+    if ctx.tier == "thorough":
+        out.append((("a1", "a2", "a3", "b1", "b2"), 5, 3, 2, 2))
+    for _s, _r, _p, ddrpm, _c in out:
+        if ddrpm * 3.1 >= 14:
+            raise MachineryError("interleaving instance lets parked requests hit the stream deadline")
+    return out
+
+
+def _int(args):
+    ctx, inst, beh_dir = args
+    slots, rpm, ppr, ddrpm, cap = inst
+    consts = {"Slots": "{%s}" % ", ".join('"%s"' % x for x in slots), "RPM": rpm, "PerPeerRPM": ppr, "DDRPM": ddrpm, "Cap": cap}
+    tag = "S%dR%dp%dd%dc%d" % (len(slots), rpm, ppr, ddrpm, cap)
+    r1 = tlc.run(ctx, "C16_MCInterleave", "gen_int_%s_mc.cfg" % tag, cfg_text=tlc.subst_cfg("C16_MCInterleave.cfg", consts),
+                 workers=1, timeout=1500, name="mci" + tag)
+    if not r1.ok:
+        raise MachineryError("design-level failure in C16 interleaving %s: %s violated\n%s" % (tag, r1.violated, r1.out[-1500:]))
+    # check-then-act variants: separating a limiter check from its record must break the ledger invariants
+    for split, inv in (("dd", "LedgerDialData"), ("accept", None)):
+        c = dict(consts)
+        c["Split"] = '"%s"' % split
+        rv = tlc.run(ctx, "C16_MCInterleave", "gen_int_%s_%s.cfg" % (tag, split), workers=1, timeout=600, name="mci" + tag + split,
+                     cfg_text=tlc.subst_cfg("C16_MCInterleave.cfg", c, replace=[(INV_C, "INVARIANTS LedgerConcurrent LedgerGlobal LedgerPeer LedgerDialData")]))
+        if rv.ok or (inv and rv.violated != inv) or not str(rv.violated).startswith("Ledger"):
+            raise MachineryError("variant guard: Split=%s does not break the ledger invariants of %s (%s)" % (split, tag, rv.violated))
+    r2 = tlc.run(ctx, "C16_MCInterleave", "gen_int_%s_edges.cfg" % tag, workers=1, timeout=1500, name="edi" + tag,
+                 cfg_text=tlc.subst_cfg("C16_MCInterleave.cfg", consts, replace=[
+                     ("INIT Init", "INIT MCInit"), ("VIEW View", "VIEW ViewNoGhost\nACTION_CONSTRAINT EmitEdge"), (INV_C, "INVARIANTS TypeOK")]))
+    if not r2.ok:
+        raise MachineryError("edge run failed for interleaving %s: %s" % (tag, r2.violated))
+    g = graph.Graph(r2.inits, r2.edges)
+    if g.n_edges() == 0:
+        raise MachineryError("no edges printed for interleaving " + tag)
+    kinds = set((op["name"], op.get("kind", ""), op.get("resp", "")) for _s, op, _t in g.edges)
+    # overlapping dial-data requests must occur: a send(other) from a state where another slot reads dial data
+    for sk, op, _t in g.edges:
+        if op["name"] == "send" and op.get("kind") == "other" and '"data"' in sk:
+            kinds.add(("send-other-while-another-reads-dial-data", "", op.get("resp")))
+    walks = _fast_walks(g, ctx.seed, 40)
+    graph.write_behaviours(os.path.join(beh_dir, "int_%s.jsonl" % tag), walks,
+                           {"Slots": list(slots), "RPM": rpm, "PerPeerRPM": ppr, "DDRPM": ddrpm, "Cap": cap,
+                            "edges": g.n_edges(), "states": g.n_states()})
+    return ("int", r1.distinct, r1.generated, g.n_edges(), kinds)
+
+
 def _fast_walks(g, seed, max_len, budget=1000):
     """Covering walks (every edge at least once) in O(E * depth): BFS-tree prefix to a state with uncovered
     out-edges, then greedy through uncovered edges with a bounded look-ahead.  Same output format as
@@ -245,7 +297,7 @@ def run(ctx):
         return replay(ctx)
     beh_dir = ctx.sub("beh")
     tlc.stage(ctx)
-    li, si = lim_instances(ctx), srv_instances(ctx)
+    li, si, ii = lim_instances(ctx), srv_instances(ctx), int_instances(ctx)
     # model-independent scenarios run on the Go side while TLC works (no other go test runs meanwhile)
     side = {}
 
@@ -266,6 +318,7 @@ def run(ctx):
             futs += [ex.submit(_srv_edges, (ctx, i, beh_dir)) for i in reversed(si)]
             futs += [ex.submit(_lim_mc, (ctx, i, 1)) for i in reversed(small)]
             futs += [ex.submit(_srv_mc, (ctx, i)) for i in si]
+            futs += [ex.submit(_int, (ctx, i, beh_dir)) for i in ii]
             futs.append(ex.submit(_boundary, ctx))
             futs.append(ex.submit(_variants, ctx))
             results = [f.result() for f in futs]
@@ -280,6 +333,16 @@ def run(ctx):
     trans = sum(r[2] for r in mcs)
     rl = [r for r in results if isinstance(r, tuple) and r[0] == "lim_edges"]
     rs = [r for r in results if isinstance(r, tuple) and r[0] == "srv_edges"]
+    ri = [r for r in results if isinstance(r, tuple) and r[0] == "int"]
+    states += sum(r[1] for r in ri)
+    trans += sum(r[2] for r in ri)
+    int_edges = sum(r[3] for r in ri)
+    ik = set().union(*[r[4] for r in ri])
+    for need in [("start", "", "PARKED"), ("start", "", "REJECTED"), ("send", "other", "DATAREQ"), ("send", "other", "REJECTED"),
+                 ("send", "same", "OK"), ("send", "refused", "REFUSED"), ("send", "bad", "RESET"), ("pay", "", "OK"), ("close", "", "RESET"),
+                 ("send-other-while-another-reads-dial-data", "", "REJECTED"), ("send-other-while-another-reads-dial-data", "", "DATAREQ")]:
+        if need not in ik:
+            raise MachineryError("vacuous interleaving graphs: no transition %s" % (need,))
     lim_edges = sum(r[1] for r in rl)
     srv_edges = sum(r[1] for r in rs)
     # vacuity guards over the printed graphs: every decision / outcome class occurs
@@ -306,6 +369,10 @@ def run(ctx):
     div += classify_mismatches(ctx, b, "server")
     if not b["mismatches"] and b["distinct"] < srv_edges:
         raise MachineryError("server replay executed %d distinct transitions of %d" % (b["distinct"], srv_edges))
+    ir = goenv.run_harness(ctx, PKG, "^TestVerifC16Interleave$", inputs=beh_dir, timeout=1500)
+    div += classify_mismatches(ctx, ir, "interleave")
+    if not ir["mismatches"] and ir["distinct"] < int_edges:
+        raise MachineryError("interleaving replay executed %d distinct transitions of %d" % (ir["distinct"], int_edges))
     p, c = side["p"], side["c"]
     div += classify_mismatches(ctx, p, "patterns")
     div += classify_mismatches(ctx, c, "concurrent")
@@ -335,6 +402,8 @@ def run(ctx):
         server_instances=["MaxAddrs%d MaxLen%d RPM%d DDRPM%d MaxParts%d" % i for i in si],
         limiter_replay_transitions_in_graphs=lim_edges, limiter_replay_distinct_executed=a["distinct"], limiter_replay_steps=a["steps"],
         server_replay_transitions_in_graphs=srv_edges, server_replay_distinct_executed=b["distinct"], server_replay_steps=b["steps"],
+        interleave_instances=["slots %s RPM%d PerPeer%d DDRPM%d Cap%d" % (",".join(i[0]),) + i[1:] for i in ii],
+        interleave_replay_transitions_in_graphs=int_edges, interleave_replay_distinct_executed=ir["distinct"], interleave_replay_steps=ir["steps"],
         pattern_sequences=p["replayed"], pattern_steps=p["steps"], concurrent_schedules=c["replayed"], concurrent_steps=c["steps"],
         server_observed=b.get("extra") or {}, concurrent_observed=cx, limiter_closed_window_max=(a.get("extra") or {}).get("closed_window_max"),
         boundary_closed_window_over_rpm_replay_instances=closed_replay, boundary_closed_window_over_rpm_patterns=closed_pat,
